@@ -28,7 +28,6 @@ pub mod spy {
         64 * input_len + 64 * 1024
     }
 
-    #[inline(always)]
     pub fn note(n: usize) {
         unsafe {
             if n > MAX_REQ {
@@ -60,18 +59,32 @@ pub mod spy {
     // stubs for std::alloc::{alloc, alloc_zeroed, realloc}
     #[cfg(not(vreplay))]
     pub unsafe fn alloc(layout: Layout) -> *mut u8 {
-        note(layout.size());
-        unsafe { malloc(layout.size()) as *mut u8 }
+        // recorded inline: a helper call in front of `malloc` made CBMC report spurious `__rust_dealloc` failures
+        // (measured on PatchIndexHeader::parse with a concrete input; the same body without the call verifies)
+        unsafe {
+            if layout.size() > MAX_REQ {
+                MAX_REQ = layout.size();
+            }
+            malloc(layout.size()) as *mut u8
+        }
     }
     #[cfg(not(vreplay))]
     pub unsafe fn alloc_zeroed(layout: Layout) -> *mut u8 {
-        note(layout.size());
-        unsafe { calloc(layout.size(), 1) as *mut u8 }
+        unsafe {
+            if layout.size() > MAX_REQ {
+                MAX_REQ = layout.size();
+            }
+            calloc(layout.size(), 1) as *mut u8
+        }
     }
     #[cfg(not(vreplay))]
     pub unsafe fn realloc(ptr: *mut u8, _layout: Layout, new_size: usize) -> *mut u8 {
-        note(new_size);
-        unsafe { c_realloc(ptr as *mut core::ffi::c_void, new_size) as *mut u8 }
+        unsafe {
+            if new_size > MAX_REQ {
+                MAX_REQ = new_size;
+            }
+            c_realloc(ptr as *mut core::ffi::c_void, new_size) as *mut u8
+        }
     }
     // native replay never calls these (stubs are inactive); keep the names resolvable
     #[cfg(vreplay)]
@@ -140,4 +153,4 @@ mod c02_misc;
 mod c02_archive_footer;
 #[cfg(kani)]
 mod c08_manifests;
-#[cfg(kani)] mod zz_probe;
+
